@@ -102,7 +102,12 @@ func (r *RectClip64) path1ContainsPath2(path1 Path64, path2 Path64) bool {
 			break
 		}
 	}
-	return ioCount <= 0
+	if ioCount == 0 {
+		// every corner of path2 lies on path1's boundary (or they balance): the corners
+		// cannot tell, so ask for the middle of the rectangle
+		return PointInPolygon(r.mp, path1) != IsOutside
+	}
+	return ioCount < 0
 }
 
 func (r *RectClip64) addCornerLocation(prev, curr Location) {
